@@ -5,6 +5,7 @@ package mon
 
 import (
 	"fmt"
+	"math"
 
 	"verifharness/dyn"
 )
@@ -76,6 +77,25 @@ func (w *World) NextStamp() dyn.Val {
 		// every fifth written value is zero: a store that is skipped or
 		// special-cased for the zero value must be visible too
 		return w.T.FromInt(0)
+	}
+	if n%17 == 0 {
+		// value classes at the edge of the type: the bounds of integer types,
+		// +-Inf for floats
+		neg := n%34 == 0
+		switch w.T.Kind {
+		case dyn.KInt:
+			if neg {
+				return dyn.IntVal(w.T.MinI())
+			}
+			return dyn.IntVal(w.T.MaxI())
+		case dyn.KUint:
+			return dyn.UintVal(w.T.MaxU())
+		default:
+			if neg {
+				return dyn.FloatVal(math.Inf(-1))
+			}
+			return dyn.FloatVal(math.Inf(1))
+		}
 	}
 	switch {
 	case w.T.Bits == 8:
